@@ -62,11 +62,17 @@ type concWorker struct {
 	notes []string
 }
 
-func drawProgram(c *Chooser, n int) []concOp {
+func drawProgram(c *Chooser, n int, codecHeavy bool) []concOp {
 	ops := make([]concOp, n)
 	for i := range ops {
 		k := c.Pick("cop", 4, 2, 1, 3, 3, 6, 5, 1, 4, 2, 2, 2)
 		ops[i] = concOp{kind: k, seed: c.U64("opseed"), mode: c.Intn("cmode", 4)}
+		if codecHeavy && i > 0 {
+			// everybody is inside the compressing Serialize / Deserialize at about the same time: as many simultaneous
+			// tenants of whatever the codecs share behind the API as there are workers
+			ops[i].kind = []int{opSerialize, opSerialize, opDeserialize}[c.Intn("heavyop", 3)]
+			ops[i].mode = 1 + c.Intn("heavymode", 3)
+		}
 	}
 	// make sure there is something to work on first
 	ops[0].kind = []int{opParseSmall, opParseLarge, opParseND}[c.Pick("first", 4, 2, 1)]
@@ -489,12 +495,29 @@ func RunConc(r *Run) {
 func drawPrograms(r *Run) [][]concOp {
 	c := r.C
 	n := []int{2, 2, 3, 4, 4, 6, 8, 12, 16}[c.Intn("nworkers", 9)]
+	many := false
 	if r.thorough() && c.Intn("many", 4) == 0 {
 		n = []int{16, 32, 64}[c.Intn("nmany", 3)]
+		many = n > 16
+	} else if !r.thorough() && c.Intn("manyq", 10) == 0 {
+		// "N up to several times GOMAXPROCS" (16 here): in the quick tier too, with short programs
+		n = []int{24, 32, 48, 64}[c.Intn("nmanyq", 4)]
+		many = true
+	}
+	codecHeavy := c.Intn("codecheavy", 8) == 0 || many && c.Intn("codecheavymany", 2) == 0
+	if codecHeavy {
+		r.stat("codec_heavy_runs", 1)
+	}
+	if many {
+		r.stat("runs_with_more_workers_than_cpus", 1)
 	}
 	progs := make([][]concOp, n)
 	for i := range progs {
-		progs[i] = drawProgram(c, 3+c.Intn("proglen", 6))
+		l := 3 + c.Intn("proglen", 6)
+		if many && !r.thorough() {
+			l = 2 + c.Intn("proglenmany", 3)
+		}
+		progs[i] = drawProgram(c, l, codecHeavy)
 	}
 	return progs
 }
@@ -597,6 +620,22 @@ func runConcDet(r *Run) {
 				stuck = true
 				r.violate("M-term", "livelock", "step bound exceeded")
 				s.ReleaseAll()
+				return
+			}
+			stallStep.Store(int64(steps))
+			if *flagFreeAt >= 0 && steps >= *flagFreeAt {
+				// resolving a stall seen at this step in an earlier execution of the same seed: everything the simulator
+				// holds goes on, nothing parks any more. Either every worker finishes (the block was an artefact of
+				// holding goroutines inside library calls) or something stays blocked with nobody held (a deadlock).
+				s.free.Store(true)
+				s.ReleaseAll()
+				r.trace("%d free-running from here", steps)
+				syncWait()
+				if done != len(ws) {
+					stuck = true
+					r.violate("M-term", "deadlock", fmt.Sprintf("after everything the simulator held was let go, %d of %d workers still cannot finish", len(ws)-done, len(ws)))
+				}
+				r.stat("stalls_resolved_as_artefact", 1)
 				return
 			}
 			// group indistinguishable tokens
@@ -741,9 +780,11 @@ func runConcRace(r *Run) {
 		for _, i := range set {
 			gates[i] <- struct{}{}
 		}
+		beginWait() // (the stall watchdog looks at goroutines blocked in library code if this lasts)
 		for range set {
 			<-arrived
 		}
+		endWait()
 		for _, i := range set {
 			pos[i]++
 		}
@@ -772,10 +813,64 @@ func runConcRace(r *Run) {
 			}()
 		}
 		close(start)
+		beginWait()
 		wg.Wait()
+		endWait()
 		if k > 1 {
 			r.stat("traversal_storms", 1)
 			r.stat("traversal_storm_reads", k*n)
+		}
+	}
+	if c.Intn("codecstorm", 3) == 0 {
+		// and a phase of sustained traffic through the codecs: every worker round-trips its own object through its own
+		// Serializer in a compressing mode, over and over, all at once; every round must expose the worker's own document.
+		// Anything the codecs share behind the API (pools, limiters, decoders) sees more simultaneous tenants than CPUs.
+		n := 20 + c.Intn("codecstormn", 180)
+		start := make(chan struct{})
+		var wg sync.WaitGroup
+		k := 0
+		for _, w := range ws {
+			if w.obj == nil || !w.obj.readable() || len(w.obj.pj.Tape) > 4000 {
+				continue
+			}
+			k++
+			w := w
+			mode := simdjson.CompressMode(1 + c.Intn("codecstormmode", 3))
+			wg.Add(1)
+			go func() {
+				defer wg.Done()
+				ser := simdjson.NewSerializer()
+				ser.CompressMode(mode)
+				var dst *simdjson.ParsedJson
+				<-start
+				for i := 0; i < n && !w.run.failed(); i++ {
+					out, _, err := RoundTrip(ser, ser, w.obj.pj, dst)
+					if err != nil {
+						walkerFail(w.run, "W-ser", "repeated serialize round trip while all other workers do the same", err)
+						return
+					}
+					dst = out
+					if i%16 == 0 || i == n-1 {
+						got, err := WalkInto(out)
+						if err != nil {
+							walkerFail(w.run, "W-ser", "repeated serialize round trip while all other workers do the same", err)
+							return
+						}
+						if d := DiffRoots(w.obj.model, got, EqExact); d != "" {
+							w.run.violate("W-ser", "mismatch", "repeated serialize round trip while all other workers do the same: "+d)
+							return
+						}
+					}
+				}
+			}()
+		}
+		close(start)
+		beginWait()
+		wg.Wait()
+		endWait()
+		if k > 1 {
+			r.stat("codec_storms", 1)
+			r.stat("codec_storm_round_trips", k*n)
 		}
 	}
 	r.Res.Steps += steps
